@@ -14,6 +14,36 @@ def loops_harness():
     return dv.build_harness('h_loops', ['h_loops.cpp'])
 
 
+PREFIXES = ('plan ', 'pf ', 'fe ', 'fe|', 'feplan ', 'pi ', 'ovl ', 'scs ', 'scg ', 'ERR ')
+
+
+def run_lines(exe, lines, timeout=600):
+    """one result per input line; the harness is restarted after a case that kills it (that case gets 'CRASH rc=<n> <stderr tail>').
+    Only lines with a known result prefix count as results, so assertion messages on stderr cannot shift the alignment."""
+    out = [None] * len(lines)
+    i = 0
+    while i < len(lines):
+        rc, txt = dv.sh([exe], inp='\n'.join(lines[i:]) + '\n', timeout=timeout)
+        raw = [l for l in txt.split('\n') if l.strip()]
+        got = [l for l in raw if l.startswith(PREFIXES) or l.startswith('OVERRUN')]
+        noise = [l for l in raw if not (l.startswith(PREFIXES) or l.startswith('OVERRUN'))]
+        k = 0
+        for l in got:
+            if i + k >= len(lines):
+                break
+            if l.startswith('OVERRUN'):
+                out[i + k] = 'OVERRUN'
+                k += 1
+                break
+            out[i + k] = l
+            k += 1
+        if i + k < len(lines) and (rc != 0 or k == 0) and not (k > 0 and out[i + k - 1] == 'OVERRUN'):
+            out[i + k] = 'CRASH rc=%d %s' % (rc, ' '.join(noise)[-200:])
+            k += 1
+        i += max(k, 1)
+    return out
+
+
 # ------------------------------------------------------------------------------------------------ case generation
 
 def _range(r, kn, size):
@@ -120,7 +150,7 @@ def pf_term(c, p):
 def run_plan_cases(ctx, cases, max_calls=160):
     """-> list of (case, parsed) for the cases whose observation is small enough to judge; harness failures become violations"""
     exe = loops_harness()
-    outs = pf_common.run_harness(exe, [plan_line(c) for c in cases])
+    outs = run_lines(exe, [plan_line(c) for c in cases])
     kept, skipped = [], 0
     for c, o in zip(cases, outs):
         p = parse_plan(o)
@@ -139,7 +169,7 @@ def run_plan_cases(ctx, cases, max_calls=160):
 
 def run_pf_cases(ctx, cases, max_calls=400):
     exe = pf_common.harness()
-    outs = pf_common.run_harness(exe, [pf_common.pf_line(c) for c in cases])
+    outs = run_lines(exe, [pf_common.pf_line(c) for c in cases])
     kept = []
     for c, o in zip(cases, outs):
         p = pf_common.parse_pf(o)
